@@ -37,7 +37,9 @@ REQUIRED = {"all": ["sweep_points", "pH_zero_points", "pH_fourteen_points", "rej
 NRANDOM = {"quick": 1200, "thorough": 6000}
 NPH = {"quick": 40, "thorough": 90}
 HI = {"quick": 150, "thorough": 400}
-SPECIAL = ["K", "R", "H", "D", "E", "C", "Y", "G", "KKKKKKKKKK", "RRRRRRRRRR", "HHHHHH", "DDDDEEEE", "CCCYYY",
+SPECIAL = ["RG" * 15, "GRGRGRGRGK", "PR" * 20, "GGGGR" * 12, "Q" * 60 + "K", "GS" * 40 + "H", "GS" * 40 + "D", "Q" * 239 + "K",
+           "SYGQQSSYGQQSSYGQQSSYGQQSSYGQQSDSYGQQSSYGQQSSYGQQSSYGQQSSYGQQSSYGQQD", "N" * 80 + "C", "G" * 70 + "Y", "A" * 90 + "E",
+           "K", "R", "H", "D", "E", "C", "Y", "G", "KKKKKKKKKK", "RRRRRRRRRR", "HHHHHH", "DDDDEEEE", "CCCYYY",
            "GSGSGSAAPPLLVV", "R" + "D" * 400, "K" + "E" * 60, "D" + "R" * 200, "GHGYGHGCGH", "GSCGSC", "EEEEEEEEEE",
            "RRRRRRRRRRRRRRRRRRRRRRRRRRRRRRG", "RK" * 30, "Y" * 30, "C" * 30, "HC" * 20, "KRHDECY" * 5, "RRRRRD",
            "MDVFMKGLSKAKEGVVAAAEKTKQGVAEAAGKTKEGVLYVGSKTKEGVVHGVATVAEKTKEQVTNVGGAVVTGVTAVAQKTVEGAGSIAAATGFVKKDQLGKNEEGAPQEGILEDMPVDPDNEAYEMPSEEGYQDYEPEA"]
@@ -184,7 +186,7 @@ def judge(case, rep, S):
         name, g = rng.choice([("NCPR", obj.get_NCPR), ("FCR", obj.get_FCR), ("mean_net_charge", obj.get_mean_net_charge),
                               ("fraction_expanding", obj.get_fraction_expanding)])
         try:
-            r = g(pH=bad)
+            r = g(pH=bad) if rng.random() < 0.5 else g(bad)          # keyword and positional call forms
         except Exception:
             rep.cnt("rejected_out_of_range")
         else:
